@@ -11,6 +11,7 @@ renewal, `Provision` alone holds a mismatched intermediate pair; it is `Start`'s
 makes the start-up end consistent.
 -/
 import CaddyModel.C14.Lemmas
+import CaddyModel.C14.FileStoreLemmas
 
 namespace CaddyModel.C14
 
@@ -163,5 +164,19 @@ theorem recovery_with_runtime_renewal_old_code_fails :
 /-- the same history under the current code ends with a fresh, consistent intermediate -/
 example : ((Event.mk ⟨4, 100⟩ none).run codeOrder (runSteps codeOrder runtimeWitness World.empty).disk).value?
     = some ⟨⟨0, 0, 1 + rootLife, 0⟩, ⟨5, 0, 104, 5⟩⟩ := by decide
+
+/-! ### FileStorage: a storage that writes the key file in place is not atomic -/
+
+/-- **fileStore_atomic fails for in-place writing**: truncate-then-write of `root.crt`, the write
+    torn after 3 bytes — the key file holds a torn value, which `Load` would hand to the PEM
+    decoder (every later start-up: "parsing root certificate PEM") -/
+theorem inPlace_store_not_atomic :
+    ∃ (ff : Option FFault) (k : Key) (b : Blob),
+      (runDOps ff (inPlaceStoreOps k b) 0 Dir.empty).dir.keys k = some (.part b 3) ∧
+      ¬ KeysWhole (runDOps ff (inPlaceStoreOps k b) 0 Dir.empty).dir := by
+  refine ⟨some ⟨2, .killTorn 3⟩, .rootCrt, .cert 0 0 0, by decide, ?_⟩
+  intro h
+  obtain ⟨b, hb⟩ := h .rootCrt (.part (.cert 0 0 0) 3) (by decide)
+  cases hb
 
 end CaddyModel.C14
